@@ -1217,6 +1217,71 @@ func execLam(x *fw.Ctx, c Case) {
 			}
 		}
 	}
+	if first.Class == ref.Bound && 0 < len(c.Args) && c.Amb == "" {
+		repeatedCalls(x, &c)
+	}
+}
+
+// repeatedCalls: the function is called twice by ONE call of a mapping function
+// (mapcar, mapcan+list, every) over lists that hold the two argument vectors column by
+// column; what each call bound (the &rest list included) must be what the same call made
+// directly binds, and must still be that after the second call: a caller may reuse its
+// argument buffer, a parameter may not alias it. Relation monitor, no model.
+func repeatedCalls(x *fw.Ctx, c *Case) {
+	names, _ := c.LL.Names()
+	second := make([]string, len(c.Args))
+	for i, a := range c.Args {
+		second[i] = a
+		if n, err := strconv.Atoi(a); err == nil {
+			second[i] = strconv.Itoa(n + 100)
+		}
+	}
+	lam := "(lambda " + c.LL.Text() + " (list " + strings.Join(names, " ") + "))"
+	if len(names) == 0 {
+		return
+	}
+	q := func(a string) string {
+		if strings.HasPrefix(a, "(") || a != "nil" && a != "t" && !strings.HasPrefix(a, ":") && !isInt(a) {
+			return "'" + a
+		}
+		return a
+	}
+	var cols []string
+	for i := range c.Args {
+		cols = append(cols, "(list "+q(c.Args[i])+" "+q(second[i])+")")
+	}
+	eval := func(src string) (string, bool) {
+		callTrace = callTrace[:0]
+		out, err := sl.Eval(slip.NewScope(), src)
+		sl.Reset()
+		if err != nil {
+			return err.String(), false
+		}
+		return sl.Show(out), true
+	}
+	d1, ok1 := eval("(funcall " + lam + " " + strings.Join(c.Args, " ") + ")")
+	d2, ok2 := eval("(funcall " + lam + " " + strings.Join(second, " ") + ")")
+	if !ok1 || !ok2 {
+		x.Cover("A:repeated-calls:direct-call-failed (judged by the routes)")
+		return
+	}
+	for _, via := range []struct{ name, src, want string }{
+		{"mapcar", "(mapcar " + lam + " " + strings.Join(cols, " ") + ")", "(" + d1 + " " + d2 + ")"},
+		{"mapcan", "(mapcan (lambda (&rest c04all) (list (apply " + lam + " c04all))) " + strings.Join(cols, " ") + ")", "(" + d1 + " " + d2 + ")"},
+		{"every", "(let ((c04acc nil)) (every (lambda (&rest c04all) (push (apply " + lam + " c04all) c04acc) t) " + strings.Join(cols, " ") + ") (reverse c04acc))", "(" + d1 + " " + d2 + ")"},
+	} {
+		got, ok := eval(via.src)
+		x.Cover("A:repeated-calls:" + via.name)
+		if !ok || got != via.want {
+			x.Fail("A repeated-calls via="+via.name+" fail=differs-from-direct-calls", "%s => %s, the two direct calls give %s", via.src, got, via.want)
+			return
+		}
+	}
+}
+
+func isInt(a string) bool {
+	_, err := strconv.Atoi(a)
+	return err == nil
 }
 
 func ambSig(c *Case) string {
